@@ -223,6 +223,24 @@ CLAIMED = {
         design_ref='DESIGN.md 6/C02',
         note='Trusted: Coq kernel, translator, extraction, harness, sort-trace hook; refdec.py as independent reading of the standard. No axioms.',
         technique='Coq proof: symbol membership, exact lengths, padding form and header order for all inputs; reference-decoder oracle per case for the mode stream'),
+    'C17': dict(
+        category='translation_validation',
+        text='Theorems (Coq, axiom-free): C17_graph_is_boundary -- for every bitmap the outline graph has an edge exactly between modules of '
+             'different colour; C17_evenodd_fills_dark -- for every bitmap and EVERY path, whatever produced it: a well-formed path '
+             '(axis-parallel non-zero segments, closed sub-paths, Move relative to the point the Close returned to, inside the bounding box) '
+             'whose vertical unit edges have odd multiplicity exactly on the boundary blackens exactly the dark modules under the even-odd '
+             'rule of Spec/EvenOdd.v (telescoping parity argument along each row); C17_pixels -- pixels() yields exactly the dark modules in '
+             'row-major order, for all bitmaps. What is NOT a theorem: that the Hierholzer decomposition in Bitmap::path (alternatives/insert '
+             'bookkeeping, Jump, compress_path) uses every boundary edge exactly once on EVERY bitmap. That is decided per output by a '
+             'certificate check proved sound in Coq (C17_check_sound: accepted => well-formed and fills exactly the dark modules), run, extracted, '
+             'on every path the implementation returns; the implementation is also compared with a Gallina model of the algorithm and re-filled '
+             'by an independent Python rasteriser (two ray directions). Inputs: symbols of all 48 sizes, all bitmaps up to 3x3 with a dark '
+             'top-left module, random bitmaps, constructed topologies (checkerboards, nested rings, islands, combs, spiral, holes). unicode() is '
+             'compared with its model and the Python oracle.',
+        design_ref='DESIGN.md 6/C17',
+        note='Level: verified certificate checking per output + theorems for the geometry; the path algorithm itself is not verified for all bitmaps. '
+             'Trusted: Coq kernel, Spec/EvenOdd.v as the meaning of even-odd filling, extraction, harness. No axioms.',
+        technique='Coq: boundary/even-odd theorem for all bitmaps and paths + sound certificate checker run on each implementation output; algorithm model tied by correspondence'),
 }
 
 PENDING_REASON = 'check not built yet in this round (work proceeds in the order of DESIGN.md section 11); not claimed until its quick command exists'
